@@ -87,6 +87,20 @@ class FeedServer(threading.Thread):
                 elif kind == "accept":
                     if not self._accept(step[1]):
                         break
+                elif kind == "flood":
+                    # a stream without any line end (e.g. the wrong port of the receiver: binary data),
+                    # a chunk every few milliseconds for step[1] seconds
+                    end = time.monotonic() + step[1]
+                    chunk = step[2] if len(step) > 2 else b"\x1a3\x00\xffZ8D4840D6" * 6
+                    n = 0
+                    try:
+                        while time.monotonic() < end and not self.stop.is_set():
+                            self.conn.sendall(chunk)
+                            n += len(chunk)
+                            time.sleep(0.004)
+                    except OSError:
+                        pass
+                    self.log.append((time.monotonic(), "flooded", n))
                 elif kind == "flap":
                     # a relay with a dead backend: every connection is accepted and closed at once
                     end = time.monotonic() + step[1]
